@@ -53,6 +53,8 @@ def gen(r, algo=None, focus=None, tier="quick", offgrid=False):
     scn = {"kind": "sys", "cfg": cfg, "pipes": pipes}
     if r.random() < 0.08:
         scn["params_as_file"] = True
+    if r.random() < 0.2:
+        scn["observe"] = r.randint(0, 10 ** 9)       # a bystander reads public state between workload, scheduler and executor
     if r.random() < 0.15 and nticks > 2:
         scn["decoy_at"] = r.randint(1, max(1, nticks // 2))      # another Executor is constructed while this run is live
     return scn
@@ -145,6 +147,14 @@ def gen_pipes(r, nticks, tps, ram, focus=None, max_ops=5, offgrid=False):
             pipes.append({"prio": prio, "at": t, "ops": ops})
             if r.random() < 0.25:
                 pipes[-1]["scratch_parents"] = True
+    if pipes and r.random() < 0.2:
+        # identical twins a few ticks apart: one container's memory falls in the very tick another's rises by the same
+        # amount, two results coincide, scores tie
+        for _ in range(r.randint(1, 3)):
+            src = r.choice(pipes)
+            twin = {"prio": src["prio"], "at": min(max(nticks - 1, 0), src["at"] + r.choice([0, 1, 1, 2, 3, 5])), "ops": src["ops"]}
+            pipes.append(twin)
+        pipes.sort(key=lambda p_: p_["at"])
     if not pipes and nticks > 0 and r.random() < 0.9:
         pipes.append({"prio": r.choice(PRIOS), "at": 0,
                       "ops": [{"par": [], "segs": [[fstr(F(2, tps)), "const", None, fstr(2 * unit)]]}]})
@@ -179,6 +189,8 @@ def gen_generated(r, algo=None, tier="quick"):
     scn = {"kind": "sys", "cfg": cfg}
     if r.random() < 0.1:
         scn["params_as_file"] = True
+    if r.random() < 0.2:
+        scn["observe"] = r.randint(0, 10 ** 9)
     return scn
 
 
@@ -254,6 +266,8 @@ def gen_preempt(r, tier="quick", offgrid=True):
     scn = {"kind": "sys", "cfg": cfg, "pipes": pipes}
     if r.random() < 0.2:
         scn["decoy_at"] = r.randint(1, max(1, nticks // 2))
+    if r.random() < 0.2:
+        scn["observe"] = r.randint(0, 10 ** 9)
     return scn
 
 
